@@ -27,6 +27,7 @@ REQUIRE = {
     "operand_fingerprints_rechecked": 5000,
     "finalized_mutator_refusals": 500,
     "cursor_compared": 300,
+    "repeated_nonidempotent_map_trees": 100,
     "popup_compared": 50,
 }
 RULE = (
@@ -51,6 +52,14 @@ ASSUMES = [
 
 MODES = {"utf8": "utf-8", "wide": "euc-jp", "narrow": "ascii"}
 ATTRS = [None, None, "a", "b", "c", 1]
+NONIDEMPOTENT_MAPS = [
+    [["a", "b"], ["b", "a"]],
+    [["a", "b"], ["b", "c"]],
+    [["a", "b"], ["b", "c"], ["c", "a"]],
+    [[None, "a"], ["a", None]],
+    [[None, "a"], ["a", "b"], [1, None]],
+    [["c", 1], [1, "c"], ["a", "c"]],
+]
 NARROW = "abcxyzABC .-_|"
 WIDE = "漢字あ"
 ZERO = "́̀"
@@ -189,6 +198,20 @@ class Gen:
         elif op == "map":
             keys = rng.sample(ATTRS[1:] + ["zz"], rng.randint(0, 4))
             n["map"] = [[k, rng.choice(["m1", "m2", "a", "b", None])] for k in dict.fromkeys(keys)]
+            if rng.random() < 0.3:
+                # a mapping that is not idempotent (swap / chain / cycle), applied two or three times in a
+                # row - directly or with a wrapper / padding in between (equal dict objects, not the same one)
+                n["map"] = [list(kv) for kv in rng.choice(NONIDEMPOTENT_MAPS)]
+                inner = self.tree(cols, rows, d)
+                for _ in range(rng.randint(1, 2)):
+                    between = rng.choice(["none", "none", "wrap", "padlr"])
+                    if between == "wrap":
+                        inner = {"op": "wrap", "fin": int(rng.random() < 0.4), "inplace": 0, "c": [inner]}
+                    elif between == "padlr":
+                        inner = {"op": "padlr", "fin": 0, "inplace": int(rng.random() < 0.5), "l": 0, "r": 0, "c": [inner]}
+                    inner = {"op": "map", "fin": int(rng.random() < 0.3), "inplace": int(rng.random() < 0.5), "map": [list(kv) for kv in n["map"]], "c": [inner], "repeat": 1}
+                n["c"] = [inner]
+                return n
             n["c"] = [self.tree(cols, rows, d)]
         elif op == "fillattr":
             n["a"] = rng.choice(["f1", "a", 7])
@@ -453,6 +476,8 @@ def judge(ctx, desc, mode, count=True):
     d = G.first_diff(flat, model.rows)
     if count:
         ctx.count("trees_compared")
+        if any(n.get("repeat") for n in op_nodes(root)):
+            ctx.count("repeated_nonidempotent_map_trees")
         ctx.count("cells_compared", rcols * rrows)
         ctx.count("wide_cut_cells_seen", sum(1 for r, mr in zip(flat, model.rows) for it in mr if it[0] == b" " and it[2] is not None and it[3] is None))
     if d is not None:
